@@ -281,19 +281,41 @@ def fn_structure(text):
         if bo is None:
             continue
         loops.append((kw, bo, match_brace(m, bo)))
-    # return arrow in signature (depth 0 w.r.t. parens)
+    # return arrow in signature: the `->` that directly follows the parameter list (generics and where
+    # clauses may contain `Fn(..) -> T` arrows of their own)
     arrow = None
+    fm = re.search(r"\bfn\s+\w+\s*", m[:body_open])
+    k = fm.end() if fm else 0
+    if k < body_open and m[k] == "<":
+        ad = 0
+        while k < body_open:
+            if m.startswith("->", k):
+                k += 2
+                continue
+            if m[k] == "<":
+                ad += 1
+            elif m[k] == ">":
+                ad -= 1
+                if ad == 0:
+                    k += 1
+                    break
+            k += 1
+    while k < body_open and m[k] != "(":
+        k += 1
     d = 0
-    k = 0
     while k < body_open:
         ch = m[k]
         if ch in "([":
             d += 1
         elif ch in ")]":
             d -= 1
-        elif d == 0 and m.startswith("->", k):
-            arrow = k
+            if d == 0:
+                k += 1
+                break
         k += 1
+    am = re.match(r"\s*->", m[k:body_open])
+    if am:
+        arrow = k + am.end() - 2
     where = None
     wm = None
     for wm in re.finditer(r"\bwhere\b", m[:body_open]):
